@@ -28,7 +28,7 @@ every coherent state (`GT.FSA.Coherent`), which is all the property theorems are
 namespace GT
 
 /-- the Python exceptions the modelled code can raise -/
-inductive Err
+inductive FSA.Err
   | keyError      -- KeyError
   | indexError    -- IndexError (`start_vertices[0]` on an empty list)
   | fuel          -- model-only: a `while` loop did not finish within the supplied fuel
@@ -60,13 +60,13 @@ def set : Dict κ ν → κ → ν → Dict κ ν
 def erase (d : Dict κ ν) (k : κ) : Dict κ ν := d.filter (fun p => !decide (p.1 = k))
 
 /-- `d[k]`, raising `KeyError` -/
-def get (d : Dict κ ν) (k : κ) : Except Err ν :=
+def get (d : Dict κ ν) (k : κ) : Except FSA.Err ν :=
   match d.get? k with
   | some v => .ok v
   | none => .error .keyError
 
 /-- `d.pop(k)`, raising `KeyError` -/
-def pop (d : Dict κ ν) (k : κ) : Except Err (Dict κ ν) :=
+def pop (d : Dict κ ν) (k : κ) : Except FSA.Err (Dict κ ν) :=
   if d.contains k then .ok (d.erase k) else .error .keyError
 
 /-- read of a `defaultdict` whose insertion is recorded by the caller's following write -/
